@@ -1,3 +1,4 @@
+import PW.Proofs.CollapsePSD
 import PW.Proofs.SpecLemmas
 import PW.Proofs.MixedRadix
 import PW.Proofs.Grid
@@ -53,6 +54,15 @@ theorem unitary_keeps_trace {a b : Type} [Fintype a] [Fintype b] [DecidableEq a]
     Matrix.trace (PW.Channels.emb U * ρ * (PW.Channels.emb U)ᴴ) = Matrix.trace ρ :=
   PW.Channels.unitary_trace_preserving U hU ρ
 
+/-- **a measurement outcome leaves a valid state**: the collapsed state `(Π_o ⊗ 1) ρ (Π_o ⊗ 1)` of a
+positive semidefinite joint state is positive semidefinite (hence Hermitian); with
+`conditioning_keeps_weight` (C04) its trace is the outcome's probability, so dividing by it gives a
+unit-trace density matrix -/
+theorem collapse_keeps_positive_semidefinite {a b : Nat} (o : Nat) (ho : o < a) (ρ : PW.Tensor ℂ)
+    (hρ : (PW.Adequacy.toMatrix (a := a) (b := b) ρ).PosSemidef) :
+    (PW.Adequacy.toMatrix (a := a) (b := b) (PW.Spec.projectOn [a, b] 0 o ρ)).PosSemidef :=
+  PW.Adequacy.projectOn_posSemidef o ho ρ hρ
+
 end PW.Props.C07
 
 #print axioms PW.Props.C07.new_subsystem_keeps_hermitian
@@ -63,3 +73,4 @@ end PW.Props.C07
 #print axioms PW.Props.C07.stored_faithful
 #print axioms PW.Props.C07.operation_keeps_positivity
 #print axioms PW.Props.C07.unitary_keeps_trace
+#print axioms PW.Props.C07.collapse_keeps_positive_semidefinite
